@@ -662,8 +662,8 @@ class RawPeer:
     ["shutdown_wr"] | ["wait_close", timeout] | ["recv_until_close", timeout]
     Received PDUs are appended to self.received as raw bytes; b"" marks EOF; None marks a timeout."""
 
-    def __init__(self, world, script, port=None, sock=None):
-        self.w, self.script, self.port, self.sock = world, [list(s) for s in script], port, sock
+    def __init__(self, world, script, port=None, sock=None, start=0):
+        self.w, self.script, self.port, self.sock, self.start = world, [list(s) for s in script], port, sock, start
         self.received = []
         self.log = []
         self.error = None
@@ -699,6 +699,8 @@ class RawPeer:
     def run(self):
         try:
             if self.sock is None:
+                if self.start:
+                    VTime.sleep(self.start)
                 self.sock = VSocket()
                 self.sock.connect(("127.0.0.1", self.port))
             for op in self.script:
